@@ -2804,10 +2804,13 @@ class WBEMConnection:  # pylint: disable=too-many-instance-attributes
                         arg_name, type(bool_param)))
         return bool_param
 
-    def _get_rslt_params(self, result, namespace):
+    def _get_rslt_params(self, result, namespace, exp_type=None):
         """
         Common processing for pull results to separate end-of-sequence,
         enum-context, and entities in IRETURNVALUE.
+
+        If exp_type is not None, the entities in IRETURNVALUE must be objects
+        of that type, otherwise CIMXMLParseError is raised.
 
         Returns tuple of entities in IRETURNVALUE, end_of_sequence,
         and enumeration_context)
@@ -2841,6 +2844,14 @@ class WBEMConnection:  # pylint: disable=too-many-instance-attributes
 
             elif p[0] == "IRETURNVALUE":
                 rtn_objects = p[2]
+        if exp_type is not None:
+            for obj in rtn_objects:
+                if not isinstance(obj, exp_type):
+                    raise CIMXMLParseError(
+                        _format("Expecting {0} object in result list, got {1} "
+                                "object", exp_type.__name__,
+                                obj.__class__.__name__),
+                        conn_id=self.conn_id)
 
         if not end_of_sequence_found and not enumeration_context_found:
             raise CIMXMLParseError(
@@ -2860,13 +2871,36 @@ class WBEMConnection:  # pylint: disable=too-many-instance-attributes
                                                  namespace)
         return (rtn_objects, end_of_sequence, rtn_ctxt)
 
+    def _get_value_objects(self, result):
+        """
+        Support for Associators, References, AssociatorNames, ReferenceNames
+        and ExecQuery operations.
+
+        Get the objects from the VALUE.OBJECT, VALUE.OBJECTWITHPATH,
+        VALUE.OBJECTWITHLOCALPATH or OBJECTPATH child elements of IRETURNVALUE,
+        and validate that the child elements are of such a kind.
+        """
+        objects = []
+        if result is not None:
+            for x in result[0][2]:
+                # The child elements listed above are represented as tuples
+                # (name, attrs, object); any others as CIM objects or values.
+                if not isinstance(x, tuple):
+                    raise CIMXMLParseError(
+                        _format("Expecting a VALUE.OBJECT*, or OBJECTPATH "
+                                "element in result list, got {0} object",
+                                x.__class__.__name__),
+                        conn_id=self.conn_id)
+                objects.append(x[2])
+        return objects
+
     def _get_returned_objects(self, result, ObjectName):
         """
         Support for Associators, References operations
         Get returned objects and validate that the types correspond to the types
         for Associators and References
         """
-        objects = [] if result is None else [x[2] for x in result[0][2]]
+        objects = self._get_value_objects(result)
 
         if isinstance(ObjectName, CIMInstanceName):
             # instance-level invocation
@@ -2879,7 +2913,14 @@ class WBEMConnection:  # pylint: disable=too-many-instance-attributes
                         conn_id=self.conn_id)
         else:
             # class-level invocation
-            for classpath, klass in objects:
+            for obj in objects:
+                if not isinstance(obj, tuple):
+                    raise CIMXMLParseError(
+                        _format("Expecting tuple (CIMClassName, CIMClass) "
+                                "in result list, got {0} object",
+                                obj.__class__.__name__),
+                        conn_id=self.conn_id)
+                classpath, klass = obj
                 if not isinstance(classpath, CIMClassName) or \
                         not isinstance(klass, CIMClass):
                     raise CIMXMLParseError(
@@ -2898,7 +2939,7 @@ class WBEMConnection:  # pylint: disable=too-many-instance-attributes
         CIMInstanceName if the request was CIMInstanceName or
         CIMClassName if the request was CIMClassName
         """
-        objects = [] if result is None else [x[2] for x in result[0][2]]
+        objects = self._get_value_objects(result)
 
         if isinstance(ObjectName, CIMInstanceName):
             # instance-level invocation
@@ -3105,6 +3146,12 @@ class WBEMConnection:  # pylint: disable=too-many-instance-attributes
                 # paths as INSTANCENAME elements which do not contain namespace
                 # or host. We want to return instance paths with namespace, so
                 # we set it to the effective target namespace.
+                if instance.path is None:
+                    raise CIMXMLParseError(
+                        "Expecting CIMInstance object with path in result "
+                        "list (VALUE.NAMEDINSTANCE element), got CIMInstance "
+                        "object without path",
+                        conn_id=self.conn_id)
                 instance.path.namespace = namespace
 
             return instances
@@ -4686,12 +4733,15 @@ class WBEMConnection:  # pylint: disable=too-many-instance-attributes
                 QueryLanguage=QueryLanguage,
                 Query=Query)
 
-            if result is None:
-                instances = []
-            else:
-                instances = [x[2] for x in result[0][2]]
+            instances = self._get_value_objects(result)
 
             for instance in instances:
+
+                if not isinstance(instance, CIMInstance):
+                    raise CIMXMLParseError(
+                        _format("Expecting CIMInstance object in result list, "
+                                "got {0} object", instance.__class__.__name__),
+                        conn_id=self.conn_id)
 
                 # The ExecQuery CIM-XML operation returns instances as any of
                 # (VALUE.OBJECT | VALUE.OBJECTWITHLOCALPATH |
@@ -7097,7 +7147,7 @@ class WBEMConnection:  # pylint: disable=too-many-instance-attributes
                 has_out_params=True)
 
             result_tuple = pull_inst_result_tuple(
-                *self._get_rslt_params(result, namespace))
+                *self._get_rslt_params(result, namespace, CIMInstance))
             return result_tuple
 
         except (CIMXMLParseError, XMLParseError) as exce:
@@ -7328,7 +7378,7 @@ class WBEMConnection:  # pylint: disable=too-many-instance-attributes
                 has_out_params=True)
 
             result_tuple = pull_path_result_tuple(
-                *self._get_rslt_params(result, namespace))
+                *self._get_rslt_params(result, namespace, CIMInstanceName))
             return result_tuple
 
         except (CIMXMLParseError, XMLParseError) as exce:
@@ -7611,7 +7661,7 @@ class WBEMConnection:  # pylint: disable=too-many-instance-attributes
                 has_out_params=True)
 
             result_tuple = pull_inst_result_tuple(
-                *self._get_rslt_params(result, namespace))
+                *self._get_rslt_params(result, namespace, CIMInstance))
             return result_tuple
 
         except (CIMXMLParseError, XMLParseError) as exce:
@@ -7864,7 +7914,7 @@ class WBEMConnection:  # pylint: disable=too-many-instance-attributes
                 has_out_params=True)
 
             result_tuple = pull_path_result_tuple(
-                *self._get_rslt_params(result, namespace))
+                *self._get_rslt_params(result, namespace, CIMInstanceName))
             return result_tuple
 
         except (CIMXMLParseError, XMLParseError) as exce:
@@ -8127,7 +8177,7 @@ class WBEMConnection:  # pylint: disable=too-many-instance-attributes
                 has_out_params=True)
 
             result_tuple = pull_inst_result_tuple(
-                *self._get_rslt_params(result, namespace))
+                *self._get_rslt_params(result, namespace, CIMInstance))
             return result_tuple
 
         except (CIMXMLParseError, XMLParseError) as exce:
@@ -8355,7 +8405,7 @@ class WBEMConnection:  # pylint: disable=too-many-instance-attributes
                 has_out_params=True)
 
             result_tuple = pull_path_result_tuple(
-                *self._get_rslt_params(result, namespace))
+                *self._get_rslt_params(result, namespace, CIMInstanceName))
             return result_tuple
 
         except (CIMXMLParseError, XMLParseError) as exce:
@@ -8584,7 +8634,8 @@ class WBEMConnection:  # pylint: disable=too-many-instance-attributes
                 MaxObjectCount=MaxObjectCount,
                 has_out_params=True)
 
-            insts, eos, enum_ctxt = self._get_rslt_params(result, namespace)
+            insts, eos, enum_ctxt = self._get_rslt_params(
+                result, namespace, CIMInstance)
 
             query_result_class = _GetQueryRsltClass(result) if \
                 ReturnQueryResultClass else None
@@ -8739,7 +8790,7 @@ class WBEMConnection:  # pylint: disable=too-many-instance-attributes
                 has_out_params=True)
 
             result_tuple = pull_inst_result_tuple(
-                *self._get_rslt_params(result, namespace))
+                *self._get_rslt_params(result, namespace, CIMInstance))
             return result_tuple
 
         except (CIMXMLParseError, XMLParseError) as exce:
@@ -8884,7 +8935,7 @@ class WBEMConnection:  # pylint: disable=too-many-instance-attributes
                 has_out_params=True)
 
             result_tuple = pull_path_result_tuple(
-                *self._get_rslt_params(result, namespace))
+                *self._get_rslt_params(result, namespace, CIMInstanceName))
             return result_tuple
 
         except (CIMXMLParseError, XMLParseError) as exce:
@@ -9023,7 +9074,7 @@ class WBEMConnection:  # pylint: disable=too-many-instance-attributes
                 has_out_params=True)
 
             result_tuple = pull_inst_result_tuple(
-                *self._get_rslt_params(result, namespace))
+                *self._get_rslt_params(result, namespace, CIMInstance))
             return result_tuple
 
         except (CIMXMLParseError, XMLParseError) as exce:
